@@ -461,6 +461,10 @@ def _reject_structure(c, msg):
                 # capacity.rs::is_reload_stop recognises a reload only as the FIRST activity of its stop
                 if any(any(a.get('type') == 'reload' for a in st['activities'][1:]) for st in t['stops']):
                     return ['/reload-not-first-activity-of-its-stop']
+                # get_intervals closes the last interval at the last leg: a reload in the LAST stop (reload place = end
+                # location, merged with the arrival) is not seen as the start of a new interval
+                if any(a.get('type') == 'reload' for a in t['stops'][-1]['activities']):
+                    return ['/reload-in-last-stop']
                 if any(a.get('type') == 'reload' for st in t['stops'] for a in st['activities']):
                     return ['/tour-with-reload']
         return ['']
@@ -516,7 +520,8 @@ def oracle_model(c, impl, model):
         if v == 'ok':
             return []
         if v == 'panic':
-            return [{'class': 'checker-panics-on-valid', 'what': 'checker panicked on a valid solution: %s' % str(impl)[:300]}]
+            return [{'class': 'checker-panics-on-valid' + _panic_structure(c, impl),
+                     'what': 'checker panicked on a valid solution: %s' % str(impl)[:300]}]
         errs = impl.get('errors') or [impl.get('error')]
         return [{'class': 'checker-rejects-valid:' + _prefix(e) + suf,
                  'what': 'valid_b = [] (evaluated in Coq) but the checker reports %s' % json.dumps(e)[:600]}
@@ -531,12 +536,23 @@ def oracle_model(c, impl, model):
     if v == 'reject' or v == 'unreadable':
         return []
     if v == 'panic':
-        return [{'class': 'checker-panics:' + cls, 'what': 'checker panicked on breach %s: %s' % (json.dumps(m), str(impl)[:300])}]
+        return [{'class': 'checker-panics:' + cls + _panic_structure(c, impl),
+                 'what': 'checker panicked on breach %s: %s' % (json.dumps(m), str(impl)[:300])}]
     if v == 'ok':
         return [{'class': 'checker-accepts:' + cls,
                  'what': 'breach %s at site %s accepted by the checker; reference semantics: %s' % (
                      cls, json.dumps(m), sorted(_ctor_names(model[2])))}]
     return [{'class': 'harness-error', 'what': str(impl)[:300]}]
+
+
+def _panic_structure(c, impl):
+    """structural qualifier of a checker panic: capacity.rs::get_intervals computes `*idx - 1` for the leg that ENDS at a reload
+    stop, which underflows when that leg is the first one (a reload stop right after the departure stop)"""
+    if 'subtract with overflow' in str((impl or {}).get('panic')):
+        for t in c['solution'].get('tours') or []:
+            if len(t['stops']) > 1 and t['stops'][1]['activities'][:1] and t['stops'][1]['activities'][0].get('type') == 'reload':
+                return '/reload-stop-right-after-departure'
+    return ''
 
 
 def nontrivial_key(c, impl):
